@@ -525,9 +525,15 @@ class BaseSection(base.Sectionable):
         """
         if isinstance(obj, BaseSection):
             self._refuse_own_ancestor(obj)
+            if obj.name in self._sections:
+                raise KeyError("Object with the same name already exists! " + str(obj))
+            self._detach_from_other_parent(obj)
             self._sections.append(obj)
             obj._parent = self
         elif isinstance(obj, BaseProperty):
+            if obj.name in self._props:
+                raise KeyError("Object with the same name already exists! " + str(obj))
+            self._detach_from_other_parent(obj)
             self._props.append(obj)
             obj._parent = self
         elif isinstance(obj, Iterable) and not isinstance(obj, str):
@@ -586,6 +592,7 @@ class BaseSection(base.Sectionable):
                                  "Section with name '%s' already exists." % obj.name)
 
             self._refuse_own_ancestor(obj)
+            self._detach_from_other_parent(obj)
             self._sections.insert(position, obj)
             obj._parent = self
         elif isinstance(obj, BaseProperty):
@@ -593,6 +600,7 @@ class BaseSection(base.Sectionable):
                 raise ValueError("odml.Section.insert: "
                                  "Property with name '%s' already exists." % obj.name)
 
+            self._detach_from_other_parent(obj)
             self._props.insert(position, obj)
             obj._parent = self
         else:
